@@ -9,6 +9,8 @@ import (
 	"strings"
 	"testing"
 
+	"gosrc.io/xmpp/stanza"
+
 	"verif/hx"
 	"verif/vnet"
 	"verif/vrt"
@@ -29,7 +31,7 @@ var c12alphabet = []struct {
 
 var libSite = regexp.MustCompile(`^[a-z_]+\.go:\d+$`)
 
-func c12body(seq []int, sm bool, writeFails bool, reset bool) func() {
+func c12body(seq []int, sm bool, writeFails bool, reset bool, mode string) func() {
 	return func() {
 		vrt.Quiet(true)
 		var stream strings.Builder
@@ -48,16 +50,55 @@ func c12body(seq []int, sm bool, writeFails bool, reset bool) func() {
 		}
 		full := stream.String()
 		cut := vrt.ChooseFree("cut", len(full)+1)
-		s := newSess(sessOpts{sm: sm, smResume: sm, keepalive: 3600})
+		// mode "handler-waits": the handlers of inbound stanzas block until the disconnection has been
+		// reported (an application that cleans up on the Disconnected event).
+		// mode "second-connection": the connection under test is the second one of the same client.
+		s := newSess(sessOpts{sm: sm, smResume: sm, keepalive: 3600, noCatchAll: mode == "handler-waits"})
 		if s.cl == nil {
 			return
+		}
+		disconnected := make(chan struct{})
+		discClosed := false
+		if mode == "handler-waits" {
+			s.router.NewRoute().HandlerFunc(func(_ Sender, p stanza.Packet) {
+				d := describePacket(p)
+				s.routed = append(s.routed, d)
+				vrt.Log("routed %s (handler now waits for the disconnection)", d)
+				vrt.Recv((<-chan struct{})(disconnected))
+			})
+			prev := s.cl.Handler
+			s.cl.SetHandler(func(e Event) error {
+				if prev != nil {
+					prev(e)
+				}
+				if e.State.state == StateDisconnected && !discClosed {
+					discClosed = true
+					vrt.Close(disconnected)
+				}
+				return nil
+			})
 		}
 		if err := s.cl.Connect(); err != nil {
 			vrt.Fail("C12|harness|connect", "%v", err)
 			return
 		}
 		vrt.WaitIdle()
-		conn := s.conn(0)
+		connIdx := 0
+		if mode == "second-connection" {
+			s.conn(0).close()
+			vrt.WaitIdle()
+			if err := s.cl.Connect(); err != nil {
+				vrt.Fail("C12|harness|reconnect", "%v", err)
+				return
+			}
+			vrt.WaitIdle()
+			connIdx = 1
+		}
+		conn := s.conn(connIdx)
+		if conn == nil {
+			vrt.Fail("C12|harness|no-connection", "connection %d missing", connIdx)
+			return
+		}
 		conn.drainNew()
 		nErr0, nEv0 := len(s.errs), len(s.events)
 		if writeFails {
@@ -101,12 +142,16 @@ func c12body(seq []int, sm bool, writeFails bool, reset bool) func() {
 		}
 		ctx := fmt.Sprintf("inbound %v cut at byte %d of %d (%s, last complete element: %s) sm=%v write-after-cut-fails=%v reset=%v", names, cut, len(full), where, lastComplete, sm, writeFails, reset)
 		key := fmt.Sprintf("|cut=%s|last=%s|writefails=%v|reset=%v", strings.SplitN(where, "-", 2)[0], lastComplete, writeFails, reset)
+		if mode != "" {
+			key += "|" + mode
+			ctx += " mode=" + mode
+		}
 		nErr, nEv := len(s.errs)-nErr0, 0
 		var smOK = true
 		for _, ev := range s.events[nEv0:] {
 			if ev.State.state == StateDisconnected {
 				nEv++
-				if sm && ev.SMState.Id != "smid-0" {
+				if sm && ev.SMState.Id != "smid-0" && ev.SMState.Id != fmt.Sprintf("smid-%d", connIdx) {
 					smOK = false
 				}
 			}
@@ -196,7 +241,13 @@ func TestVerifC12(t *testing.T) {
 				}
 				for _, rst := range []bool{false, true} {
 					scs = append(scs, hx.Scenario{Name: fmt.Sprintf("seq=%s/sm=%v/writefails=%v/reset=%v", strings.Join(n, ","), sm, wf, rst),
-						Opt: vrt.Options{Bound: bound, Horizon: 100000}, Body: c12body(q, sm, wf, rst), Verdict: c12verdict})
+						Opt: vrt.Options{Bound: bound, Horizon: 100000}, Body: c12body(q, sm, wf, rst, ""), Verdict: c12verdict})
+				}
+				if !wf && len(q) <= 2 {
+					for _, mode := range []string{"handler-waits", "second-connection"} {
+						scs = append(scs, hx.Scenario{Name: fmt.Sprintf("seq=%s/sm=%v/mode=%s", strings.Join(n, ","), sm, mode),
+							Opt: vrt.Options{Bound: bound, Horizon: 100000}, Body: c12body(q, sm, false, false, mode), Verdict: c12verdict})
+					}
 				}
 			}
 		}
